@@ -55,7 +55,7 @@ func c08Profiles(tier string) []Profile {
 	sizes := &SeqProfile{Name: "sizes", Keys: [][]byte{kA, kB, kC}, Depth: 0, Mon: harness.Monitors{Durable: true, Append: true}, StepLimit: 400000,
 		Init: func(w *harness.World) {
 			n := harness.Choose(4300, harness.ClassOp)
-			magic := harness.Choose(3, harness.ClassOp)
+			magic := harness.Choose(4, harness.ClassOp)
 			w.Hist = append(w.Hist, fmt.Sprintf("Set(a) Flush Set(b) Flush Set(c, %d bytes, magic variant %d) Flush Revert Revert", n, magic))
 			w.SetCollection("x", "nil")
 			w.SetItem("x", kA, 1, bs("va"))
@@ -72,6 +72,12 @@ func c08Profiles(tier string) []Profile {
 				val = append(val, mm...)
 			case 2:
 				val = append(append(append([]byte{}, mm...), val...), mm...)
+			case 3:
+				// the value ends in a byte-exact copy of the first root record of this
+				// very file (a backup of the store kept inside the store)
+				if rs := harness.AllRoots(w.File.Data); len(rs) > 0 {
+					val = append(val, w.File.Data[rs[0].Off:rs[0].End]...)
+				}
 			}
 			w.SetItem("x", kC, 3, val)
 			w.Flush()
@@ -83,7 +89,7 @@ func c08Profiles(tier string) []Profile {
 		},
 		Letters: func(w *harness.World) []Letter { return nil }}
 	return []Profile{
-		sizes.Profile("history [Set Flush, Set Flush, Set(c, value) Flush, FlushRevert, FlushRevert] for every value length 0..4299 x {plain value, value ending in the doubled end marker, value starting and ending with it}: each revert must terminate (step budget), land exactly one flush back, truncate to that flush's root end, and a copy of the file must re-open to the same state"),
+		sizes.Profile("history [Set Flush, Set Flush, Set(c, value) Flush, FlushRevert, FlushRevert] for every value length 0..4299 x {plain value, value ending in the doubled end marker, value starting and ending with it, value ending in a byte-exact copy of the file's first root record}: each revert must terminate (step budget), land exactly one flush back, truncate to that flush's root end, and a copy of the file must re-open to the same state"),
 		file.Profile(fmt.Sprintf("every history of length <= %d over Set/Delete of one key, SetCollection(x), SetCollection(y, reverse comparator) with two keys, Snapshot and FlushRevert of the snapshot, Flush, FlushRevert, Reopen: zero, one and many flushes, reverts past the first flush, reverts with unflushed changes pending and across re-opens; after every FlushRevert: nil result within the step budget, state = flush stack entry below the top, file length = end of that flush's root record (or 0), and a copy of the file re-opens to the same state", d)),
 		mem.Profile(fmt.Sprintf("every history of length <= %d on a memory-only store: FlushRevert and Flush must return an error and change nothing", dm)),
 	}
